@@ -221,6 +221,55 @@ def run_nn_case(inp, ctx):
     ctx.check(inp['key'], got, 'err:#VALUE!', inp['tags'], rec)
 
 
+# ---- results too large for the spelling not to matter by accident ---------------
+# whole numbers beyond 2^53 / 15 digits: the same double, the same text,
+# whichever spelling the operand had
+BIG_TEMPLATES = (
+    ('mod-of-power', 3, 'MOD(POWER({x},40),10)'),
+    ('mod-of-caret', 3, 'MOD({x}^40,10)'),
+    ('plus-one-minus', 2, 'POWER({x},64)+1-POWER({x},64)'),
+    ('caret-plus-one-minus', 2, '{x}^64+1-{x}^64'),
+    ('text-of-power', 10, 'POWER({x},15)&""'),
+    ('text-of-product', 1000, '{x}*{x}*{x}*{x}*{x}&""'),
+    ('fact-product', 170, 'FACT({x})/FACT({x}-1)'),
+    ('mod-of-product', 3, 'MOD(' + '*'.join(['{x}'] * 40) + ',10)'),
+    ('sum-plus-one-minus', 3, '*'.join(['{x}'] * 40) + '+1-' +
+     '*'.join(['{x}'] * 40)),
+    ('difference', 9007199254740992, '({x}+1)-{x}'),
+    ('text-of-whole', 1000000000000000, '{x}+0&""'),
+    ('text-of-sum', 999999999999999, '{x}+1&""'),
+)
+
+
+def run_big_case(inp, ctx):
+    def obs(spec, how):
+        sh = fcall.Sheet()
+        text = sh.arg(spec, how)
+        formula = '=' + inp['template'].replace('{x}', text)
+        return fcall.evaluate(sh, formula), formula, dict(sh.cells)
+    canon, cf, _ = obs(inp['canon'], inp['canon_how'])
+    got, formula, cells = obs(inp['spec'], inp['how'])
+    rec = dict(inp, formula=formula, cells=cells, canonical_formula=cf)
+    if crashed(canon) or canon.startswith('nonfinite:'):
+        ctx.skip('canonical-call-raises (domain / unsupported, not C08)')
+        return
+    ctx.check(inp['key'], got, canon, inp['tags'], rec,
+              nontrivial=not inp.get('is_canonical', False))
+
+
+def gen_big(shard, tier):
+    for tname, x, template in BIG_TEMPLATES:
+        spellings = ref.number_spellings(x, False)
+        for n, sp in enumerate(spellings):
+            yield {'g': 'big', 'template': template, 'spec': sp[2],
+                   'how': sp[3], 'canon': spellings[0][2],
+                   'canon_how': spellings[0][3], 'is_canonical': n == 0,
+                   'tags': ['big:' + tname, 'carrier:' + sp[1],
+                            'spell:' + sp[0], 'route:formula',
+                            'result:beyond-15-digits'],
+                   'key': 'C08/big/%s/v=%r/spell=%s' % (tname, x, sp[0])}
+
+
 OPSYM = {'OP_ADD': '+', 'OP_SUB': '-', 'OP_MUL': '*', 'OP_DIV': '/'}
 
 
@@ -462,7 +511,7 @@ def run_user_case(inp, ctx):
         _unregister_all()
 
 
-RUN = {'fn': run_fn_case, 'nn': run_nn_case, 'op': run_op_case,
+RUN = {'big': run_big_case, 'fn': run_fn_case, 'nn': run_nn_case, 'op': run_op_case,
        'name': run_name_case, 'hist': run_history_case, 'kw': run_kw_case,
        'user': run_user_case}
 
@@ -772,7 +821,7 @@ def gen_user(shard, tier):
                         style, s, sp[0], route)}
 
 
-GEN = {'fn': gen_fn, 'nn': gen_nn, 'op': gen_op, 'name': gen_name,
+GEN = {'big': gen_big, 'fn': gen_fn, 'nn': gen_nn, 'op': gen_op, 'name': gen_name,
        'hist': gen_hist, 'user': gen_user}
 
 
@@ -802,6 +851,7 @@ def plan(tier):
             shards.append({'g': 'nn', 'name': name})
     for op in OPS:
         shards.append({'g': 'op', 'name': op})
+    shards.append({'g': 'big', 'name': 'big'})
     for name in named_functions():
         shards.append({'g': 'name', 'name': name})
     for style in STYLES:
